@@ -1,5 +1,5 @@
 (* C07  Hash, MAC and core primitives equal their specifications.  Statements only. *)
-From Dryoc Require Import Spec.Poly1305 Impl.Poly1305 Impl.Hashes Refine.Blake2b Refine.Hashes Refine.GenTie Refine.Poly1305.
+From Dryoc Require Import Spec.Poly1305 Spec.Salsa20 Spec.ChaCha20 Spec.SipHash Impl.Poly1305 Impl.Cores Impl.Hashes Refine.Blake2b Refine.Hashes Refine.GenTie Refine.Poly1305 Refine.Cores.
 Import Blake2bImpl HashesImpl.
 Open Scope Z_scope.
 
@@ -78,6 +78,25 @@ Theorem C07_poly1305_block_is_code : forall hibit r h m,
   rinv r -> hinv h -> length m = 16%nat -> wf_bytes m -> (hibit = 0 \/ hibit = Z.shiftl 1 40) ->
   Poly1305Impl.block_step hibit r h m = core r h (limbs (if hibit =? 0 then 0 else 2 ^ 40) m).
 Proof. exact block_step_core. Qed.
+
+(* crypto_core_hsalsa20 / crypto_core_hchacha20 as translated from src/classic/crypto_core.rs on
+   this run (loop bodies, iteration counts, word layout, output words) are HSalsa20 / HChaCha20 *)
+Theorem C07_hsalsa20 : forall k n, CoresImpl.hsalsa20 k n = Salsa20Spec.hsalsa20 k n.
+Proof. exact hsalsa20_is_spec. Qed.
+
+Theorem C07_hchacha20 : forall k n, length k = 32%nat -> length n = 16%nat ->
+  CoresImpl.hchacha20 k n = ChaCha20Spec.hchacha20 k n.
+Proof. exact hchacha20_is_spec. Qed.
+
+(* the round closure of siphash24 (translated) is the SipRound; c = 2, d = 4, the constants *)
+Theorem C07_siphash_round : forall v0 v1 v2 v3,
+  CoresImpl.sip_round [v0; v1; v2; v3] = let '(a, b, c, d) := SipHashSpec.sipround (v0, v1, v2, v3) in [a; b; c; d].
+Proof. exact sip_round_is_spec. Qed.
+
+Theorem C07_siphash_parameters :
+  sip_init = [0x736f6d6570736575; 0x646f72616e646f6d; 0x6c7967656e657261; 0x7465646279746573] /\
+  sip_c_rounds = 2%nat /\ sip_d_rounds = 4%nat /\ sip_final_xor = 0xff.
+Proof. exact sip_parameters. Qed.
 
 Example C07_kat_blake2b :
   omap (firstn 8) (hash_c 64 [97; 98; 99] None) = Ok [0xba; 0x80; 0xa5; 0x3f; 0x98; 0x1c; 0x4d; 0x0d].
